@@ -83,7 +83,12 @@ fn gen_balanced(rng: &mut Rng) -> Module {
     let mut main = Function::default();
     let n = 1 + rng.usize(4);
     for i in 0..n {
-        let e = match rng.below(9) {
+        let e = match rng.below(10) {
+            // two tables of equal length and different content
+            9 => c(CardBody::Equals(bin(
+                Card::call_function("words", vec![Card::scalar_int(1)]),
+                Card::call_function("work", vec![Card::scalar_int(5)]),
+            ))),
             // comparisons the language leaves unordered (distinct strings of equal length): the
             // answer must not depend on where the allocator happened to put the objects
             6 => c(CardBody::Less(bin(Card::string_card(["alpha", "bravo", "delta"][rng.usize(3)]), Card::string_card(["gamma", "omega", "sigma"][rng.usize(3)])))),
